@@ -555,6 +555,21 @@ def check_design(clif_text, layout, rtl, timeout_ms=20000):
             old = z3.BitVec(f"old_{v['path']}_{k}", w)
             olds.append(old)
             mem.store("comb", e["off"], z3.ZeroExt(8 * nb - w, old) if 8 * nb > w else old, nb)
+    # cells outside every variable (rename temporaries of version split etc.): the buffers start zeroed, so a byte
+    # no instruction ever stores to is zero; stored bytes keep an arbitrary previous content
+    written, symbolic_store = set(), False
+    cell_bytes = {e["off"]: v["native_bytes"] for v in layout["vars"] for e in v["elems"] if e["kind"] == "comb"}
+    for m_ in re.finditer(r"\b(istore8|istore16|istore32|store)(?:\.\w+)?\b[^\n]*?, (v\d+)(?:\+(\d+))?\s*(?:;|$)", clif_text, re.M):
+        kind, base, off = m_.group(1), m_.group(2), int(m_.group(3) or 0)
+        if base != "v1":
+            symbolic_store = symbolic_store or base != "v0"
+            continue
+        n = {"istore8": 1, "istore16": 2, "istore32": 4}.get(kind) or cell_bytes.get(off, 16)
+        written.update(range(off, off + n))
+    if not symbolic_store:
+        for off in range(int(layout.get("comb_bytes", 0))):
+            if ("comb", off) not in mem.b and off not in written:
+                mem.b[("comb", off)] = z3.BitVecVal(0, 8)
     for fn in funcs:
         mem = run_function(fn, mem, {0: "ff", 1: "comb"})
     diffs = []
